@@ -169,19 +169,38 @@ func TestVerifC19(t *testing.T) {
 		select {
 		case <-doneCh:
 		case <-time.After(45 * time.Second): // a round normally takes milliseconds
-			buf := make([]byte, 1<<20)
-			buf = buf[:runtime.Stack(buf, true)]
-			blocked := 0
-			where := ""
-			for _, g := range strings.Split(string(buf), "\n\n") {
-				if strings.Contains(g, "SegmentHandlerFunc") && (strings.Contains(g, "[chan send") || strings.Contains(g, "[sync.") || strings.Contains(g, "[semacquire") || strings.Contains(g, "[select")) {
-					blocked++
-					for _, l := range strings.Split(g, "\n") {
-						if strings.Contains(l, "cmaf-ingest-receiver/app.") && where == "" {
-							where = strings.TrimSpace(strings.SplitN(l, "(", 2)[0])
+			// two observations 10 s apart: handlers that are parked in the same place with no upload answered in
+			// between are blocked, not slow (a stalled machine must not fabricate the verdict)
+			dump := func() (int, string, int) {
+				buf := make([]byte, 1<<20)
+				buf = buf[:runtime.Stack(buf, true)]
+				blocked := 0
+				where := ""
+				for _, g := range strings.Split(string(buf), "\n\n") {
+					if strings.Contains(g, "SegmentHandlerFunc") && (strings.Contains(g, "[chan send") || strings.Contains(g, "[sync.") || strings.Contains(g, "[semacquire") || strings.Contains(g, "[select")) {
+						blocked++
+						for _, l := range strings.Split(g, "\n") {
+							if strings.Contains(l, "cmaf-ingest-receiver/app.") && where == "" {
+								where = strings.TrimSpace(strings.SplitN(l, "(", 2)[0])
+							}
 						}
 					}
 				}
+				mu.Lock()
+				n := len(results)
+				mu.Unlock()
+				return blocked, where, n
+			}
+			b1, _, n1 := dump()
+			finishedLate := false
+			select {
+			case <-doneCh:
+				finishedLate = true
+			case <-time.After(10 * time.Second):
+			}
+			blocked, where, n2 := dump()
+			if finishedLate || n2 != n1 || b1 == 0 {
+				blocked = 0
 			}
 			if blocked > 0 {
 				r.Violation("uploads-never-answered:handlers-blocked", map[string]any{"round": round, "blocked_handlers": blocked, "innermost_repo_function": where, "channels": C, "tracks": T})
